@@ -230,7 +230,8 @@ typeadjust(struct type *t, enum typequal *tq)
 		*tq = ptrqual;
 		break;
 	case TYPEFUNC:
-		assert(*tq == QUALNONE);
+		/* qualifiers on a function type are undefined behavior (C11 6.7.3p9); ignore them */
+		*tq = QUALNONE;
 		t = mkpointertype(t, QUALNONE);
 		break;
 	}
